@@ -118,7 +118,7 @@ func treeToValue(t *Tree) ttlv.Value {
 		case 9:
 			// a Date-Time is the whole POSIX second an instant lies in: the encoder is handed instants with a fraction of a second, too
 			sec := int64(binary.BigEndian.Uint64(b))
-			frac := []int64{0, 600_000_000, 999_999_999, 400_000_000}[uint64(sec)%4]
+			frac := []int64{600_000_000, 999_999_999}[uint64(sec)%2]
 			v.Value = time.Unix(sec, frac)
 		case 10:
 			v.Value = time.Duration(binary.BigEndian.Uint32(b)) * time.Second
